@@ -935,6 +935,58 @@ def valid_variant(rnd, env, m, split=False):
     return casegen.encode(env, m, o), o
 
 
+def spec_parse_tie(run, ctx, env, lines, c_out, rnd, tally, pid):
+    """The specification-level reading (Impl/SpecParse.v, extracted) against the implementation: whenever the
+    specification reads the bytes as a value, protobuf-c must return exactly that value (the statement of
+    C04_every_valid_encoding_is_read_as_specified, here on the real library); on the valid re-encodings the
+    specification must read SOMETHING unless a required field with a default was left out.  Damaged copies of the
+    inputs exercise the rejecting side."""
+    for k in ('spec_reads', 'spec_reads_equal_to_protobuf_c', 'spec_not_a_valid_encoding', 'damaged_inputs', 'damaged_spec_reads'):
+        tally.setdefault(k, 0)
+    dam = []
+    for l in lines[:max(8, len(lines) // 2)]:
+        t = l.split()
+        h = t[2]
+        if h == '-' or len(h) < 4:
+            continue
+        b = bytearray.fromhex(h)
+        r = rnd.random()
+        if r < 0.35:
+            b = b[:rnd.randrange(1, len(b))]
+        elif r < 0.7:
+            b[rnd.randrange(len(b))] = rnd.randrange(256)
+        else:
+            i = rnd.randrange(len(b)); b[i:i] = bytes([rnd.randrange(256)])
+        dam.append('UNPACK %s %s' % (t[1], b.hex() or '-'))
+    d_c = []
+    if dam:
+        rc, d_c, _ = run_driver(ctx.impl, env.text() + '\n'.join(dam) + '\n', pid.lower() + 'd')
+        if len(d_c) != len(dam):
+            dam, d_c = [], []
+    allc = list(lines) + dam
+    want = list(c_out) + d_c
+    sp = ['SPARSE ' + l.split(' ', 1)[1] for l in allc]
+    rc, s_out, s_err = run_driver(ctx.model, env.text() + '\n'.join(sp) + '\n', pid.lower() + 's')
+    if len(s_out) != len(sp):
+        viol(run, 'disagreement', 'specification tie: the model driver did not answer every SPARSE line (%d/%d)\n%s' % (len(s_out), len(sp), s_err[-2000:]))
+        return
+    for i, l in enumerate(allc):
+        damaged = i >= len(lines)
+        if damaged:
+            tally['damaged_inputs'] += 1
+        if s_out[i] == 'U NONE':
+            tally['spec_not_a_valid_encoding'] += 1
+            continue
+        tally['spec_reads'] += 1
+        if damaged:
+            tally['damaged_spec_reads'] += 1
+        if s_out[i] != want[i]:
+            viol(run, 'disagreement', 'the specification (Impl/SpecParse.v) reads these bytes as a value and protobuf-c returns something else\n%s\n--- schema + case\n%s%s\n--- specification\n%s\n--- protobuf-c\n%s\n'
+                 % (first_diff(s_out[i], want[i]), env.text(), l, s_out[i][:3000], want[i][:3000]))
+        else:
+            tally['spec_reads_equal_to_protobuf_c'] += 1
+
+
 def check_C04(tier, seed, pid='C04'):
     import refnorm
     run = Run(pid, tier, seed)
@@ -962,6 +1014,7 @@ def check_C04(tier, seed, pid='C04'):
             viol(run, 'disagreement', open(report_disagreement(run, env.text(), lines, c_out, m_out, bad, c_err, 'Impl <-> C correspondence (unpack) disagrees')).read())
             if len(c_out) != len(lines):
                 continue
+        spec_parse_tie(run, ctx, env, lines, c_out, rnd, tally, pid)
         r_out = []
         if ctx.ref:
             r_out, r_err = run_ref(ctx, env, lines, pid.lower() + 'r')
